@@ -160,7 +160,10 @@ def ledger_run(ctx, tier):
         return r
 
 
-LEDGER_RULE = ("seeded histories on 1-3 real AccountingBook instances (proposals, gossip deliveries in any order, crafted vertices with arbitrary "
+LEDGER_RULE = ("scenario kinds: random (below), truncate (>=1010-vertex chains and braids built on one real ledger, model state injected from the snapshot, "
+               "synchronous truncate under a watchdog, balances / by-hash reads / re-submissions / follow-up transfers before vs after), perm (a fixed valid 6-vertex history "
+               "delivered in seeded permutations with duplicates, interleaved proposals and retries, final ledger vs parents-first), load (real StreamDAG -> real LoadDag on a fresh "
+               "node, 5 stream corruptions, follow-up gossip on both). random: seeded histories on 1-3 real AccountingBook instances (proposals, gossip deliveries in any order, crafted vertices with arbitrary "
                "parents/weights/sealers/corruptions, replays, retries, trusted-set edits, cancellation after k polls, balance queries, LoadDag of the "
                "real stream); every step compared with the Coq model (result class + full snapshot projection); non-trivial = the history has at "
                "least one admitted and one rejected operation and a vertex with two distinct parents; distinct = different operation logs")
@@ -210,4 +213,7 @@ PROPS = {
     "C06": make_ledger_check("C06", ["c06.", "op.balance"]),
     "C09": make_ledger_check("C09", ["res.", "op."]),
     "C10": make_ledger_check("C10", ["res.", "op."]),
+    "C07": make_ledger_check("C07", ["trunc.", "op.truncate", "op.create.quiet", "op.add.quiet"]),
+    "C13": make_ledger_check("C13", ["perm.", "res.retry", "res.add.RParentMissing", "op.retry"]),
+    "C14": make_ledger_check("C14", ["load.", "res.load", "op.load"]),
 }
